@@ -485,3 +485,33 @@ func resolve(v ssa.Value) ssa.Value {
 	}
 	return v
 }
+
+// retResult: the i-th result of a Return, looking through the defer spill
+// (`*r = v; rundefers; t = *r; return t` — go/ssa's shape for functions with defers).
+func retResult(ret *ssa.Return, i int) ssa.Value {
+	v := ret.Results[i]
+	u, ok := v.(*ssa.UnOp)
+	if !ok || u.Op != token.MUL {
+		return v
+	}
+	al, ok := u.X.(*ssa.Alloc)
+	if !ok {
+		return v
+	}
+	// last store to the cell in the same block before the load
+	var last ssa.Value
+	for _, in := range ret.Block().Instrs {
+		if in == ssa.Instruction(u) {
+			break
+		}
+		if st, ok := in.(*ssa.Store); ok && st.Addr == ssa.Value(al) {
+			last = st.Val
+		}
+	}
+	if last != nil {
+		return last
+	}
+	return v
+}
+
+func retLast(ret *ssa.Return) ssa.Value { return retResult(ret, len(ret.Results)-1) }
